@@ -146,4 +146,21 @@ theorem rabs_of_nonneg {x : Rat} (h : 0 ≤ x) : rabs x = x := by
 theorem rabs_of_neg {x : Rat} (h : x < 0) : rabs x = -x := by
   unfold rabs; rw [if_pos h]
 
+/-- moving the start of a closed ring to its second vertex -/
+def rotate1 : List Pt → List Pt
+  | _ :: b :: t => b :: t ++ [b]
+  | r => r
+
+
+mutual
+/-- every `Rect` in the tree satisfies the `Rect::new` invariant `min ≤ max` (C18) -/
+def RectsOrdered : Geom → Prop
+  | .rect mn mx => mn.x ≤ mx.x ∧ mn.y ≤ mx.y
+  | .collection gs => RectsOrderedList gs
+  | _ => True
+def RectsOrderedList : List Geom → Prop
+  | [] => True
+  | g :: gs => RectsOrdered g ∧ RectsOrderedList gs
+end
+
 end Geo.Proofs.C05L
